@@ -345,6 +345,15 @@ func init() {
 			w.e.mu.Unlock()
 			return TupleV{}
 		},
+		zz + "SearchOnReplay": func(w *W, s *State, args []Value) Value {
+			w.e.mu.Lock()
+			if w.e.vary == nil {
+				w.e.vary = map[string]bool{}
+			}
+			w.e.vary[strArg(args[0])] = true
+			w.e.mu.Unlock()
+			return TupleV{}
+		},
 		zz + "Observe": func(w *W, s *State, args []Value) Value {
 			iv := args[1].(IfaceV)
 			s.obs = append(s.obs, ObsRec{Name: strArg(args[0]), V: iv.V})
